@@ -81,6 +81,12 @@ def variants(prog, rng):
     yield 'inner-spaces', gen.render_program(prog, L(rng, noise=0.0, inner_p=1.0))
     yield 'pre-index-space', gen.render_program(prog, L(rng, noise=0.0, pre_p=1.0))
     yield 'explicit-zero', gen.render_program(explicit_zero(prog))
+    canonical = gen.render_program(prog)
+    yield 'crlf-line-endings', canonical.replace('\n', '\r\n') + '\r\n'
+    if not any(isinstance(st, gen.Block) for st in prog.stmts):
+        # (statements only: a code fence with blanks after it is markup, not "horizontal whitespace inside a statement")
+        yield 'trailing-whitespace', '\n'.join(line + rng.choice(['  ', '\t', ' \t ']) for line in canonical.split('\n'))
+    yield 'form-feeds-and-final-comment', canonical.replace('\n', '\n\x0c\n') + '\n# the end'
     yield 'bare-condition', gen.render_program(prog, L(rng, noise=0.0, bare_p=1.0))
     yield 'comments-blank-lines', gen.render_program(prog, L(rng, noise=0.0, comments=0.9))
     yield 'paren-break', gen.render_program(paren_break(prog), L(rng, noise=0.0, breaks=1.0, comments=0.5))
